@@ -14,8 +14,9 @@ a lock somebody else holds is not runnable; no runnable thread while some are un
 All schedules are enumerated by stateless DFS (re-execution with a forced prefix).  Every run is checked against the
 property directly (overlapping send..recv intervals, interleaved frames, a caller that did not get the reply to its own
 request, deadlock) and compared with the Lean model's run of the same schedule.  Half of the cases start with the
-client already connected (the property holds: Props.C15.C15_partial), the others with a client that is not connected
-yet, where the recorded finding `connect-outside-lock` (Props.C15.connect_race_counterexample) is reproduced."""
+client already connected, the others with a client that is not connected yet (where the code before the repair
+`connect-outside-lock` lost replies: Props.C15.connect_race_counterexample; that witness is run first on every check).
+Both lock sites are instrumented when present: `manager._transaction_lock` and `client._connect_lock`."""
 import threading
 
 import socket as _real_socket
@@ -38,14 +39,15 @@ ASSUMPTIONS = ['pre-emption happens only at the yield points (every transport op
                'the registers addr, addr+1, ... (or exception 03 for a quantity outside 1..125); a read on an empty '
                'connection times out (virtual clock)',
                'requests are read-holding-registers requests with unit < 256, address and quantity < 65536',
-               'own-reply part of the property: proved for a client connected before the threads start; on a client that '
-               'is not, it fails (known finding connect-outside-lock, reproduced on every run)']
+               'lock objects are observed through wrappers assigned from outside to manager._transaction_lock and '
+               'client._connect_lock (whatever objects the code created there)']
 TRUSTED = ['harness/c15.py cooperative scheduler and instrumented lock wrapper (observes acquire/release from outside)',
            'harness/c15.py stand-ins for socket/select/time inside pymodbus.client.sync (in-memory connections, virtual clock)',
            'harness/gen_tables.py lock_scope_info (ast reading of transaction.py: which lock, around what)']
-RULE = ('all schedules (stateless DFS over the runnable threads at every yield point) of 2 threads x 1..2 transactions on a '
-        'connected and on a not yet connected client, requests with different unit ids / quantities / latencies in most '
-        'cases, plus random schedules of 2..4 threads x 1..3 transactions (quick); 2..4 threads x 1..3 transactions by DFS '
+RULE = ('all schedules (stateless DFS over the runnable threads at every yield point) of 2 threads x 1..3, 3 threads x 1..3 and '
+        '4 threads x 1..2 transactions on a connected and on a not yet connected client, requests with different unit ids / '
+        'quantities / latencies in most cases, plus random schedules of 2..4 threads x 1..3 transactions (quick); more cases, '
+        '4 threads x 2..3 and 2..4 threads x 1..3 transactions by DFS '
         'with sleep sets (polls and socket-reading connect checks are the only independent steps) up to 200k schedules '
         '(thorough); non-trivial = a schedule in which some thread was parked on the lock or pre-empted inside a '
         'transaction; distinct by (requests, client state, schedule)')
@@ -448,6 +450,8 @@ def run_schedule(threads, chooser, connected=True):
     mgr = client.transaction
     if hasattr(mgr, '_transaction_lock'):
         mgr._transaction_lock = instrument(sched, mgr._transaction_lock, locklog)
+    if hasattr(client, '_connect_lock'):      # the client-side lock around connect + transaction (absent in older trees)
+        client._connect_lock = instrument(sched, client._connect_lock, locklog)
     results = [[] for _ in range(n)]
     marks = []
 
@@ -548,23 +552,6 @@ def max_in_flight(run):
     return best, who
 
 
-def socket_replaced(run, i, k, got, mf):
-    """the signature of the recorded finding `connect-outside-lock`: transactions were serialised (at most one in
-    flight), the caller was handed a ModbusIOException, and between its send and its last read another thread's
-    connection attempt completed (an `open` event) and replaced `client.socket`"""
-    if mf > 1 or got != {'err': 'modbusio'}:
-        return None
-    for (ti, tk, s0, last) in intervals(run):
-        if (ti, tk) == (i, k):
-            # the socket the frame goes to is fixed when this thread's own connect/open before the send returns
-            own = [p for p in range(s0) if run.events[p][0] == i and run.events[p][1] in ('connect', 'open')]
-            lo = own[-1] if own else s0
-            if any(run.events[p][1] == 'open' and run.events[p][0] != i
-                   for p in range(lo + 1, min(last + 1, len(run.events)))):
-                return 'connect-outside-lock'
-    return None
-
-
 def contiguous(wire):
     i = 0
     while i < len(wire):
@@ -613,8 +600,7 @@ def check_property(rep, case, run, expected, threads):
         for k, (r, e, q) in enumerate(zip(rs, es, reqs)):
             want = {'tid': r[0], 'unit': q['unit'], 'msg': e}
             if r[1] != want:
-                rep.violation('a caller did not get the reply to its own request', case,
-                              finding=socket_replaced(run, i, k, r[1], mf), thread=i, k=k,
+                rep.violation('a caller did not get the reply to its own request', case, thread=i, k=k,
                               request=q, got=r[1], expected=want)
                 ok = False
     return ok
@@ -622,11 +608,20 @@ def check_property(rep, case, run, expected, threads):
 
 # --------------------------------------------------------------------------- model side
 def model_scope():
-    s = gen_tables.lock_scope_info()['scope']
-    if s == 'whole':
+    """the model discipline that corresponds to what the two lock sites look like in the source (mutants: the nearest)"""
+    inner = gen_tables.lock_scope_info()['scope']
+    outer = gen_tables.client_lock_info()['scope']
+    per = inner.startswith('perKey')
+    if outer == 'whole':
+        if per and 'unit' in inner:
+            return 'outerPerUnit'
         return 'whole'
-    if s.startswith('perKey'):
-        return 'perUnit' if 'unit' in s else 'perAddr'
+    if outer == 'connectOnly' and inner == 'whole':
+        return 'connectLocked'
+    if inner == 'whole':
+        return 'connectOutside'
+    if per:
+        return 'perUnit' if 'unit' in inner else 'perAddr'
     return 'none'
 
 
@@ -658,7 +653,7 @@ def independent(a, b):
     return False
 
 
-def explore(threads, limit, time_left, use_sleep, connected=True):
+def explore(threads, limit, time_left, use_sleep, connected=True, status=None):
     """stateless DFS over schedules; yields Run objects (each a complete run).  With `use_sleep`, sleep sets over
     `independent`."""
     stack = []      # per depth: dict(en, ops, sleep, done, chosen)
@@ -696,7 +691,7 @@ def explore(threads, limit, time_left, use_sleep, connected=True):
         if not run.redundant:
             yield run
         if count >= limit or time_left() < 12:
-            return
+            return          # truncated: `status['complete']` stays unset
         # backtrack
         while stack:
             node = stack[-1]
@@ -710,6 +705,8 @@ def explore(threads, limit, time_left, use_sleep, connected=True):
             stack.pop()
             prefix.pop()
         if not stack:
+            if status is not None:
+                status['complete'] = True
             return
 
 
@@ -772,14 +769,11 @@ def process_batch(ctx, rep, scope, batch):
                  tag='%s:%dx%s:%s' % (how, len(th), max(len(x) for x in th), 'connected' if conn else 'cold'))
         rep.sample({'threads': th, 'connected': bool(conn), 'schedule': ''.join(str(t) for t in run.taken),
                     'events': len(run.events), 'parked_on_lock': parked}, cap=4)
-        nbefore = len(rep.violations)
         held = check_property(rep, case, run, a['expected'], th)
         rep.compare(case, impl_view(run), model_view(a), 'real threads vs Sched.runSched on the same schedule')
         verdict = 1 if held else 0
         spec = 1 if (a['spec_exclusive'] and a['spec_contiguous'] and a['spec_served'] and not a['deadlock']) else 0
         rep.compare(case, verdict, spec, 'property verdict on the real run vs Spec verdict on the model run')
-        if not conn and not held and all(v.get('finding') for v in rep.violations[nbefore:]):
-            rep.hist['cold-start-race-reproduced'] += 1
         rep.hist['unit-mix:' + ('different' if len({r['unit'] for t in th for r in t}) > 1 else 'same')] += 1
 
 
@@ -793,8 +787,8 @@ def run(ctx):
         return t_end - _real_time.time()
 
     scope = model_scope()
-    info = gen_tables.lock_scope_info()
-    rep.notes.append('lock discipline read off the source: %r -> model scope %s' % (info, scope))
+    rep.notes.append('lock discipline read off the source: manager %r, client %r -> model scope %s' % (
+        gen_tables.lock_scope_info(), gen_tables.client_lock_info(), scope))
     batch = []
     total = [0]
 
@@ -821,10 +815,18 @@ def run(ctx):
             add(c['threads'], conn, run_schedule(c['threads'], forced(list(c['sched'])), conn), 'corpus')
     flush()
 
-    # 1. exhaustive: 2 threads x 1..2 transactions, client connected before the threads start / cold start
-    plan = [((1, 1), True, ctx.scale(10, 30)), ((1, 1), False, ctx.scale(5, 14)),
-            ((2, 1), True, ctx.scale(2, 10)), ((1, 2), True, ctx.scale(2, 10)), ((2, 1), False, ctx.scale(1, 4)),
-            ((2, 2), True, ctx.scale(2, 8)), ((2, 2), False, ctx.scale(0, 2))]
+    # 1. exhaustive (plain DFS, every schedule): client connected before the threads start / cold client.
+    #    With the client lock around connect + transaction the only choice points are the lock acquisitions, so the
+    #    number of schedules of a shape is the number of orders of its transactions (2x2: 6, 3x3x3: 1680, 2x2x2x2: 2520);
+    #    on a tree where a lock is missing or narrowed the same enumeration explodes and finds the interleavings.
+    base = [((1, 1), 8), ((2, 1), 3), ((1, 2), 3), ((2, 2), 4), ((3, 2), 2), ((3, 3), 2), ((1, 1, 1), 3), ((2, 2, 1), 2),
+            ((2, 2, 2), 2), ((1, 1, 1, 1), 2), ((2, 1, 1, 1), 1), ((3, 3, 2), 1)]
+    if not ctx.quick:
+        base = [(sh, 3 * k) for sh, k in base] + [((3, 3, 3), 2), ((2, 2, 2, 2), 2), ((3, 2, 2, 1), 2), ((3, 3, 3, 1), 1)]
+    plan = []
+    for sh, k in base:
+        plan.append((sh, True, k - k // 2))
+        plan.append((sh, False, max(1, k // 2)))
     exhaustive = True
     for shape, conn, ncases in plan:
         for _ in range(ncases):
@@ -834,17 +836,16 @@ def run(ctx):
                 exhaustive = False
                 break
             th = gen_threads(rng, shape, maxlat=1 if sum(shape) > 2 else 2)
-            complete = False
-            for r in explore(th, 60000, lambda: left() + 12 - ctx.scale(6, 200), False, conn):
+            status = {}
+            for r in explore(th, 60000, lambda: left() + 12 - ctx.scale(6, 200), False, conn, status):
                 add(th, conn, r, 'dfs')
                 if enough():
                     break
-            else:
-                complete = True
             flush()
-            if not complete and not enough():
+            if not status.get('complete') and not enough():
                 exhaustive = False
-            rep.hist['dfs-cases:%dx%d:%s' % (shape[0], shape[1], 'connected' if conn else 'cold')] += 1
+                rep.hist['dfs-truncated:%s' % 'x'.join(map(str, shape))] += 1
+            rep.hist['dfs-cases:%s:%s' % ('x'.join(map(str, shape)), 'connected' if conn else 'cold')] += 1
     flush()
     rep.exhaustive = exhaustive and not enough()
 
@@ -862,8 +863,7 @@ def run(ctx):
     # 3. thorough: DFS with sleep sets for 2..4 threads x 1..3 transactions, capped
     if not ctx.quick:
         cap = 200000
-        shapes = [(1, 1, 1), (2, 1, 1), (1, 1, 1, 1), (2, 2, 1), (3, 1), (3, 2), (2, 2, 2), (3, 3), (2, 1, 1, 1), (3, 2, 1),
-                  (2, 2, 1, 1), (3, 3, 1), (3, 3, 2)]
+        shapes = [(3, 2, 1), (2, 2, 1, 1), (3, 3, 1), (3, 2, 2, 2), (3, 3, 3, 2), (3, 3, 3, 3)]
         for shape in shapes:
             if enough() or left() < 15 or total[0] >= cap:
                 break
